@@ -79,7 +79,38 @@ umi_eq = Contract(
     raises={},
 )
 
-UNITS = [umi_eq, nla_eq, chic_eq]
+
+
+# plain fragments (no restriction site): same cell and strand, same contig, start or end within the assignment radius, UMIs
+# within the allowed distance.  "Share ... cut site" for a plain fragment is its mapping location: contig included.
+def plain_frag(name_):
+    def mk(eng, name):
+        d = named(INT, name_ + '.umi_hamming_distance')
+        r = named(INT, name_ + '.assignment_radius')
+        s, e_ = named(INT, name_ + '.start'), named(INT, name_ + '.end')
+        eng.assume(z3.And(d.z >= 0, r.z >= 0, s.z <= e_.z))
+        return Obj('Fragment', {'sample': named(STR, name_ + '.sample'), 'strand': named(BOOL, name_ + '.strand'),
+                                'span': (named(STR, name_ + '.contig'), s, e_), 'assignment_radius': r,
+                                'umi': named(STR, name_ + '.umi'), 'umi_hamming_distance': d, 'max_fragment_size': None},
+                   info=eng.loader.classref(FF, 'Fragment'))
+    return mk
+
+
+plain_eq = Contract(
+    PROP, FF + '::Fragment.__eq__', name='Fragment.__eq__[plain fragments]',
+    params={'self': plain_frag('a'), 'other': plain_frag('b')},
+    setup=eq_setup,
+    ensures={
+        'equal_iff_same_cell_strand_location_and_close_umi':
+            'result == (self.sample == other.sample and self.strand == other.strand and self.span[0] == other.span[0] and '
+            'min(abs(self.span[1] - other.span[1]), abs(self.span[2] - other.span[2])) <= self.assignment_radius and %s)' % UMI_CLOSE,
+        'fragments_on_different_contigs_are_never_equal': 'implies(self.span[0] != other.span[0], result == False)',
+    },
+    raises={},
+    assumptions=['both fragments have a defined span (has_valid_span: no max_fragment_size); hamming_distance uninterpreted'],
+)
+
+UNITS = [umi_eq, nla_eq, chic_eq, plain_eq]
 
 
 # ------------------------------------------------------------------------------ Molecule.add_fragment
@@ -357,3 +388,41 @@ def assign_unit(pooling, exact):
 
 
 UNITS += [assign_unit(0, True), assign_unit(1, True), assign_unit(0, False), assign_unit(1, False)]
+
+
+def plain_eq_replay(inputs, clause):
+    """two real plain Fragments of single real pysam records realising the model's sample / strand / contig / start / UMI"""
+    import pysam
+    from pyvc.contract import import_real
+    Fragment = import_real(FF, 'Fragment')
+    a, b = inputs['self']['attrs'], inputs['other']['attrs']
+    header = pysam.AlignmentHeader.from_dict({'HD': {'VN': '1.6'}, 'SQ': [{'SN': 'chr1', 'LN': 10 ** 8}, {'SN': 'chr2', 'LN': 10 ** 8}]})
+    same_contig = a['span'][0] == b['span'][0]
+    base = 10 ** 6
+    shift = min(a['span'][1], b['span'][1], 0)
+
+    def seg(x, contig, name):
+        s = pysam.AlignedSegment(header)
+        s.query_name, s.reference_id = name, contig
+        s.reference_start = base + int(x['span'][1]) - shift
+        n = max(1, min(int(x['span'][2]) - int(x['span'][1]), 60))
+        s.query_sequence, s.cigartuples, s.mapping_quality = 'A' * n, [(0, n)], 60
+        s.query_qualities = pysam.qualitystring_to_array('I' * n)
+        s.flag = 16 if x['strand'] else 0
+        s.set_tag('SM', 'cell_' + (x['sample'] or 'x'))
+        s.set_tag('RX', ('ACG' + x['umi']) if all(c in 'ACGTN' for c in x['umi']) else ('ACG' if x['umi'] == a['umi'] else 'TTT'))
+        s.set_tag('MX', 'x')
+        return s
+    fa = Fragment([seg(a, 0, 'qa')], assignment_radius=int(a['assignment_radius']), umi_hamming_distance=0)
+    fb = Fragment([seg(b, 0 if same_contig else 1, 'qb')], assignment_radius=int(b['assignment_radius']), umi_hamming_distance=0)
+    got = (fa == fb)
+    want = bool(fa.sample == fb.sample and fa.strand == fb.strand and fa.span[0] == fb.span[0] and
+                min(abs(fa.span[1] - fb.span[1]), abs(fa.span[2] - fb.span[2])) <= fa.assignment_radius and fa.umi == fb.umi)
+    obs = {'outcome': 'return', 'value': got, 'expected': want, 'a': [fa.sample, fa.strand, list(fa.span), fa.umi],
+           'b': [fb.sample, fb.strand, list(fb.span), fb.umi]}
+    if got != want:
+        return {'status': 'confirmed', 'observed': obs, 'failed': [{'clause': clause}]}
+    return {'status': 'not-reproduced', 'observed': obs}
+
+
+plain_eq.replay = plain_eq_replay
